@@ -654,7 +654,12 @@ class PrecipitateBase(GenericModel):
             # Compute driving force and precipitate composition (which helps with growth rate and impingement in multicomponent systems)
             # If driving force is negative, then we can skip the rest of the calculations (no nucleation barrier and no nucleation rate)
             aspectRatio = precParams.shapeFactor.aspectRatio(self.pData.Rcrit[self.pData.n, p])
-            _, volDG, self._precBetaTemp[p] = nucfuncs.volumetricDrivingForce(self.therm, xComp, T, precParams, aspectRatio, self.removeCache)
+            _, volDG, betaComp = nucfuncs.volumetricDrivingForce(self.therm, xComp, T, precParams, aspectRatio, self.removeCache)
+            # If the driving force could not be calculated (equilibrium did not converge), keep the last valid values
+            # of all nucleation terms of this phase (Y holds the values of the previous calculation)
+            if volDG is None:
+                continue
+            self._precBetaTemp[p] = betaComp
             Y.drivingForce[0,p] = volDG
             if volDG < 0:
                 continue
